@@ -49,9 +49,14 @@ def run(tier, seed):
         if len(tk) <= (25 if quick else 40):
             bases.append((tk, set(), "sentence"))
     # two descriptions: the boundary between them is a top-level position
-    for _ in range(6 if quick else 60):
+    for j in range(6 if quick else 60):
         a = [t for t, r_ in svgen.random_derivation(rng, "description", 3)[1]]
         b = [t for t, r_ in svgen.random_derivation(rng, "description", 3)[1]]
+        if j % 2 == 0:
+            # every second pair: the description behind the boundary starts with an attribute instance
+            while b[0] not in ("module", "macromodule", "interface", "program", "package"):
+                b = [t for t, r_ in svgen.random_derivation(rng, "description", 3)[1]]
+            b = ["(*", "keep", "=", "1", "*)"] + b
         bases.append((a + b, {len(a) - 1}, "two descriptions"))
     # rejected bases: one token deleted / duplicated
     for _ in range(8 if quick else 80):
